@@ -72,5 +72,5 @@ func addNumbers(n0, n1 slip.Object) slip.Object {
 	case slip.Complex:
 		n1 = slip.Complex(complex128(n1.(slip.Complex)) + complex128(t0))
 	}
-	return n1
+	return reduceNumber(n1)
 }
